@@ -2165,8 +2165,8 @@ namespace gch
         if (std::is_constant_evaluated ())
           return default_uninitialized_value_construct (first, last);
 #endif
-        std::fill (first, last, value_ty ());
-        return last;
+        // Note: Not std::fill, which would additionally require `value_ty` to be assignable.
+        return default_uninitialized_value_construct (first, last);
       }
 
       template <typename A = alloc_ty, typename V = value_ty,
